@@ -789,6 +789,7 @@ class Processor:
                     compare_node is not None
                     and isinstance(compare_node, dict))
 
+                removed_merge = False
                 if (is_ymk_anchor
                     and isinstance(parent, CommentedMap)
                     and hasattr(parent, "merge")
@@ -800,8 +801,9 @@ class Processor:
                                 if key in parent and parent[key] == val:
                                     del parent[key]
                             del parent.merge[midx]
+                            removed_merge = True
                             break
-                elif parentref in parent:
+                if not removed_merge and parentref in parent:
                     del parent[parentref]
             elif isinstance(parent, (CommentedSeq, list)):
                 if len(parent) > parentref:
